@@ -9,7 +9,9 @@ from .paths import path_of
 META = {
     'explanation': 'E-GNF summaries of ZoneManagerImpl::createForTimeZoneData, TimeZone::toTimeZoneData, TimeZone::getZoneId and the '
                    'operator== family; each arm is selected by the folded numeric value of the kType constants (not by label '
-                   'spelling), then its effect is compared with the expected restore/save action; field-completeness of equality.',
+                   'spelling), then its effect is compared with the expected restore/save action; operator== of each value type is '
+                   'evaluated from its path summary on every 0/1 assignment of the fields of both operands and every pair of kinds: '
+                   'true exactly when the kinds agree and the fields of that kind agree.',
     'decided': 'every TimeZoneData type value restores through the arm with the right effect; every TimeZone kind saves to the right '
                'type and payload; operator== of TimeZone, TimeZoneData, ZonedDateTime, OffsetDateTime, LocalDateTime, LocalDate, '
                'LocalTime, TimeOffset compares the discriminator first and every field of the active arm, same field on both sides; '
